@@ -6,6 +6,8 @@ CONSTANTS
   MSet = {2, 3}
   MRSet = {0, 1, 2}
   MaxCuts = 2
+  ClassSet = {"bnd", "field", "name", "id", "idfull", "data", "datafull"}
+  AnswerSet = {"terr", "ok", "5xx", "404"}
   FixScanner = FALSE
   FixCursor = FALSE
   Fix5xx = FALSE
